@@ -133,6 +133,8 @@ func newRawDoH(c *dohCase, body []byte) (*rawDoH, error) {
 						send = append(send, "\r\n"...)
 					}
 					send = append(bytes.Clone(send), "0\r\n\r\n"...)
+				case "closedelim":
+					fmt.Fprintf(&w, "\r\n")
 				case "short":
 					fmt.Fprintf(&w, "Content-Length: %d\r\n\r\n", max(len(body)-7, 1))
 				case "long":
